@@ -101,6 +101,23 @@ func (v *VC) Generate() {
 	}
 }
 
+// findLocal looks for a source-level local variable of the function by name.
+func (v *VC) findLocal(name string) (val ssa.Value, isAddr bool, ok bool) {
+	for _, b := range v.fn.Blocks {
+		for _, in := range b.Instrs {
+			if d, isD := in.(*ssa.DebugRef); isD {
+				if id, isId := d.Expr.(*ast.Ident); isId && id.Name == name {
+					return d.X, d.IsAddr, true
+				}
+			}
+			if a, isA := in.(*ssa.Alloc); isA && a.Comment == name {
+				return a, true, true
+			}
+		}
+	}
+	return nil, false, false
+}
+
 func copyVals(m map[string]ssa.Value) map[string]ssa.Value {
 	n := make(map[string]ssa.Value, len(m))
 	for k, x := range m {
@@ -1323,6 +1340,22 @@ func (v *VC) genReturn(i *ssa.Return, g string, heap *Heap) {
 	v.retCount++
 	v.cover(fmt.Sprintf("cover:return%d-reachable", v.retCount), g, i.Pos())
 	env.witness = true
+	// a local variable named by a postcondition but not (yet) declared on this path stands for an
+	// arbitrary value: the clause must hold whatever it is (typically its guard is false here)
+	env.outOfScope = func(name string) (TV, bool) {
+		x, isAddr, ok := v.findLocal(name)
+		if !ok {
+			return TV{}, false
+		}
+		c := v.freshName("oos_" + sanitize(name))
+		if isAddr {
+			et := x.Type().Underlying().(*types.Pointer).Elem()
+			v.emit("(declare-const %s Ptr)", c)
+			return TV{T: v.load(et, c, env.heap), Typ: et}, true
+		}
+		v.emit("(declare-const %s %s)", c, v.sortOf(x.Type()))
+		return TV{T: c, Typ: x.Type()}, true
+	}
 	for _, e := range v.contract.Ensures {
 		if w, ok := v.contract.Witness[e.Label]; ok && e.Label != "" {
 			if v.ensuresWithWitness(e, w, env, g, i) {
